@@ -46,6 +46,7 @@ pub fn model_space(tier: Tier) -> Vec<Model> {
             v.extend(gen::m7(0));
             v.extend(gen::m8(0));
             v.extend(gen::m9(0));
+            v.extend(gen::m10(0));
         }
         Tier::Thorough => {
             v.extend(gen::m1(1));
@@ -57,6 +58,7 @@ pub fn model_space(tier: Tier) -> Vec<Model> {
             v.extend(gen::m7(1));
             v.extend(gen::m8(1));
             v.extend(gen::m9(1));
+            v.extend(gen::m10(1));
         }
     }
     v
@@ -624,5 +626,44 @@ fn run_c03(model: &Model, sols: &[Vec<i32>], cfg: &Cfg, br: &BrancherSpec, cx: &
         IterEnd::Panic(e) => cx.violation(format!("{}:iterate", panic_sig(&e)), format!("panic in iteration: {e}")),
         IterEnd::Broken(e) => cx.violation("partial-solution:iterator", e),
         IterEnd::Stopped => unreachable!(),
+    }
+
+    // The same iteration, interrupted once (the termination condition fires at exactly one poll,
+    // chosen by the case index) and continued on the same iterator after the Unknown: still every
+    // solution exactly once.
+    let Ok(mut b) = guard(|| build(model, cfg)) else { return };
+    let ids = b.ids.clone();
+    let mut once = CountingTermination::from(1 + cx.idx % 6, true);
+    let (got, end, unknowns) = with_brancher(
+        br,
+        &mut b.solver,
+        &ids,
+        cfg.seed,
+        IterateResuming {
+            ids: &ids,
+            term: &mut once,
+            cap: sols.len() + 2,
+            max_unknowns: 3,
+        },
+    );
+    if unknowns > 0 {
+        cx.acc.count("iterations_resumed_after_an_interrupt", 1);
+    }
+    match end {
+        IterEnd::Finished | IterEnd::Unsat => {
+            let mut sorted = got.clone();
+            sorted.sort();
+            let before = sorted.len();
+            sorted.dedup();
+            let mut reference = sols.to_vec();
+            reference.sort();
+            if sorted.len() != before {
+                cx.violation("repeated-solution:resumed", format!("the resumed iteration produced a solution twice: {got:?}"));
+            } else if sorted != reference {
+                cx.violation("missing-solution:resumed", format!("the resumed iteration produced {} of {} solutions", sorted.len(), reference.len()));
+            }
+        }
+        IterEnd::Panic(e) => cx.violation(format!("{}:iterate-resumed", panic_sig(&e)), format!("panic in the resumed iteration: {e}")),
+        other => cx.violation("resumed-iteration-does-not-finish", format!("the resumed iteration ended with {other:?}")),
     }
 }
